@@ -8,6 +8,7 @@ import vf, ringlib
 CODE_FIXPRED = True
 CODE_FIXLEAVE = True
 CODE_FIXWRAP = True
+CODE_FIXDEAD = True     # stabilize falls back to the nearest live finger / predecessor when its whole successor list has departed
 
 
 # quick tier: each ring property replays the coverage-goal witnesses closest to it (thorough: every property replays all of them)
